@@ -249,7 +249,9 @@ impl<const TY: u8> SA<TY>
                     1 => ctx.send_to_children(Child::<1> { parent: a, v: *v, o: None }),
                     2 => ctx.send_to_children(Child::<2> { parent: a, v: *v, o: None }),
                     _ => {}
-                }},
+                }
+                    e(&[ev::BCAST_END as usize, a, *ty as usize]);
+                },
                 Act::Subscribe(topic) => {
                     let o = exec::fresh_oid();
                     e(&[ev::TOPIC_OP as usize, o, 1000 + a, 1, *topic as usize, a]);
